@@ -428,9 +428,73 @@ func runC05Acl(c *Ctx, encrypt CallMatcher) {
 			admitting++
 			construct := FuncName(fn) + "|admitted account unpacks the key chain"
 			calls := CallSinks(fn, CalleeFn(unpack), false)
-			if len(calls) == 0 {
-				c.Violate(rule, construct, p.Pos(fn.Pos()), "this function admits an account (stores a fresh AccountState with a permission) but never calls unpackAllKeys: the admitted account's own view holds no read key")
-				continue
+			// "unpack when it is me" moved into a function new since the anchor snapshot: inside it
+			// every success return passes unpackAllKeys or the not-me edge; its call stands for both
+			type condUnpack struct {
+				call *ssa.Call
+				h    *ssa.Function
+				who  ssa.Value
+			}
+			var conds []condUnpack
+			var gNotMeFwd Gate
+			findConds := func() {
+				for _, ci := range CallsIn(fn) {
+					call, isCall := ci.(*ssa.Call)
+					h := CalleeFunc(ci.Common())
+					if !isCall || h == nil || h.Blocks == nil || !IsRepoFunc(h) || !IsNewFunc(h) || len(CallSinks(h, CalleeFn(unpack), false)) == 0 {
+						continue
+					}
+					hNotMe, hSites := gNotMeFwd.PassEdges(h)
+					if len(hSites) != 1 {
+						continue
+					}
+					rem := map[Edge]bool{}
+					for e := range hNotMe {
+						rem[e] = true
+					}
+					for e := range ErrorExitEdges(h) {
+						rem[e] = true
+					}
+					r := Reach(h, ReachOpts{Cut: CutAtCall(CalleeFn(unpack)), Removed: rem})
+					bypass := false
+					for _, ret := range SuccessReturns(h) {
+						if r.Reachable(ret) {
+							bypass = true
+						}
+					}
+					if bypass {
+						continue
+					}
+					who := callArgs(&AtomOf(hSites[0]).X.(*ssa.Call).Call)[0]
+					for {
+						if mi, ok := who.(*ssa.MakeInterface); ok {
+							who = mi.X
+						} else if ci2, ok := who.(*ssa.ChangeInterface); ok {
+							who = ci2.X
+						} else {
+							break
+						}
+					}
+					pm, isParam := who.(*ssa.Parameter)
+					if !isParam {
+						continue
+					}
+					for i, hp := range h.Params {
+						if hp == pm && i < len(call.Call.Args) {
+							arg := call.Call.Args[i]
+							for {
+								if mi, ok := arg.(*ssa.MakeInterface); ok {
+									arg = mi.X
+								} else if ci2, ok := arg.(*ssa.ChangeInterface); ok {
+									arg = ci2.X
+								} else {
+									break
+								}
+							}
+							conds = append(conds, condUnpack{call, h, arg})
+						}
+					}
+				}
 			}
 			// from each grant, a success return is reachable only through unpackAllKeys or across the
 			// false edge of st.pubKey.Equals(<admitted identity>)
@@ -448,8 +512,14 @@ func runC05Acl(c *Ctx, encrypt CallMatcher) {
 				}
 				return true, false
 			})
+			gNotMeFwd = gNotMe
+			findConds()
+			if len(calls) == 0 && len(conds) == 0 {
+				c.Violate(rule, construct, p.Pos(fn.Pos()), "this function admits an account (stores a fresh AccountState with a permission) but never calls unpackAllKeys: the admitted account's own view holds no read key")
+				continue
+			}
 			notMe, sites := gNotMe.PassEdges(fn)
-			if len(sites) == 0 {
+			if len(sites) == 0 && len(conds) == 0 {
 				c.Violate(rule, construct, p.Pos(fn.Pos()), "unpackAllKeys is not guarded by st.pubKey.Equals(<admitted identity>)")
 				continue
 			}
@@ -473,9 +543,29 @@ func runC05Acl(c *Ctx, encrypt CallMatcher) {
 					}
 				}
 			}
+			for _, cu := range conds {
+				for _, mu := range grants[fn] {
+					who := cu.who
+					if !usesValue(mu.Key, func(v ssa.Value) bool { return v == who }) {
+						idOK = false
+					}
+				}
+			}
 			bad := ""
 			if !idOK {
 				bad = "the identity compared with st.pubKey is not the identity stored into accountStates"
+			}
+			cutPlain := CutAtCall(CalleeFn(unpack))
+			cutUnpack := func(in ssa.Instruction) bool {
+				if cutPlain(in) {
+					return true
+				}
+				for _, cu := range conds {
+					if in == ssa.Instruction(cu.call) {
+						return true
+					}
+				}
+				return false
 			}
 			removed := map[Edge]bool{}
 			for e := range notMe {
@@ -485,7 +575,7 @@ func runC05Acl(c *Ctx, encrypt CallMatcher) {
 				removed[e] = true
 			}
 			for _, mu := range grants[fn] {
-				r := Reach(fn, ReachOpts{From: mu, Cut: CutAtCall(CalleeFn(unpack)), Removed: removed})
+				r := Reach(fn, ReachOpts{From: mu, Cut: cutUnpack, Removed: removed})
 				for _, ret := range SuccessReturns(fn) {
 					if r.Reachable(ret) {
 						bad = "after the grant at " + p.Pos(mu.Pos()) + " a nil return is reachable for the admitted account itself without unpackAllKeys (witness " + r.Path(p, ret) + ")"
@@ -493,7 +583,14 @@ func runC05Acl(c *Ctx, encrypt CallMatcher) {
 				}
 			}
 			c.Check(bad == "", rule, construct, p.Pos(fn.Pos()), orDefault(bad, "when the admitted identity is the local account every success path calls unpackAllKeys"))
-			requirePropagates(c, rule, fn, CalleeFn(unpack), "unpackAllKeys")
+			if len(calls) > 0 {
+				requirePropagates(c, rule, fn, CalleeFn(unpack), "unpackAllKeys")
+			}
+			for _, cu := range conds {
+				cc := cu.call
+				requirePropagates(c, rule, fn, func(x *ssa.CallCommon) bool { return x == &cc.Call }, "unpackAllKeys")
+				requirePropagates(c, rule, cu.h, CalleeFn(unpack), "unpackAllKeys")
+			}
 		}
 		c.Check(admitting >= 3, rule, "admission paths|count", p.Pos(unpack.Pos()), fmt.Sprintf("%d admitting functions found (expected at least 3: accounts-add, request-accept, invite-join)", admitting))
 		c.Min(rule, 7)
